@@ -299,6 +299,40 @@ Proof.
 Qed.
 Print Assumptions C20_class_leaf_closed_partial.
 
+(* The category hypothesis cannot be dropped: the statement without syn_cats_resp is refuted on the faithful
+   model by a category whose table is not closed under case and whose NAME is not one of "Ll" "Lu" "Lt".
+   Real instances: (1) the long aliases Uppercase_Letter / Lowercase_Letter / Titlecase_Letter, which the
+   engine files under their own names (ids >= 16 in the model) and therefore does not widen under IgnoreCase:
+   (?i)\p{Uppercase_Letter} matches "A" but not "a" although (?i)\p{Lu} matches both - a genuine defect,
+   reported with a one-line patch (addCategory compares the spelling instead of the table);
+   (2) by design: scripts and derived properties ((?i)\p{Greek} matches U+03BC but not the micro sign U+00B5 of
+   the same fold orbit). *)
+Definition C20_class_leaf_closed_full : Prop :=
+  forall (cat_in : Z -> Z -> bool) (simple_fold to_lower : Z -> Z),
+    (forall x, In x dom_t -> simple_fold x = fold_t x /\ to_lower x = lower_t x) ->
+    forall (o : opts) (s : csyn) (c : cls),
+      o_ci o = true -> wf_syn s -> ci_syn_ok o s ->
+      elab cat_in simple_fold to_lower orbit_fuel s o = Ok c ->
+      resp_b orbit_sim (char_in cat_in c).
+
+Theorem C20_class_leaf_closed_refuted : ~ C20_class_leaf_closed_full.
+Proof.
+  intros H.
+  (* category 16 = "the upper-case ASCII letters" under a name the engine does not treat as a cased-letter category *)
+  set (cat := fun name ch : Z => (name =? 16) && (65 <=? ch) && (ch <=? 90)).
+  specialize (H cat fold_t lower_t (fun x _ => conj eq_refl eq_refl) (Opts true false false)
+                (CSyn false [IProp false 16] None)
+                (Cls [] [(false, 16)] None false false None) eq_refl).
+  assert (W : wf_syn (CSyn false [IProp false 16] None))
+    by (cbn [wf_syn]; split; [apply Forall_cons; [exact I|apply Forall_nil]|exact I]).
+  assert (K : ci_syn_ok (Opts true false false) (CSyn false [IProp false 16] None))
+    by (cbn [ci_syn_ok]; split; [apply Forall_cons; [reflexivity|apply Forall_nil]|exact I]).
+  specialize (H W K ltac:(vm_compute; reflexivity) 65 97).
+  assert (S : orbit_sim 65 97) by (right; split; apply zmem_In; vm_compute; reflexivity).
+  specialize (H S). vm_compute in H. discriminate.
+Qed.
+Print Assumptions C20_class_leaf_closed_refuted.
+
 (* The single-letter unit (a pattern letter outside brackets, quantified or not) under IgnoreCase, as
    built by addUnitOne / addUnitNotone and left by reduce: for EVERY rune of the table the leaf is
    ci-closed for the orbit relation - a rune with a fold partner becomes the class of its orbit
